@@ -261,7 +261,7 @@ def cutTree (E : Env) (a : Nat) : Tree := erase E (rawValue a)
 
 def mapTrees (f : HVal → Res Tree) : List (Option HVal) → Res Trees
   | [] => .ok .nil
-  | none :: r => (mapTrees f r).map fun ts => .cons .null ts            -- a hole keeps its place
+  | none :: r => (mapTrees f r).map fun ts => .cons .null ts            -- a hole keeps its place (reads as undefined)
   | some v :: r => (f v).bind fun t => (mapTrees f r).map fun ts => .cons t ts
 
 def mapTreeKVs (f : HVal → Res Tree) : List (List Nat × HVal) → Res TreeKVs
@@ -333,10 +333,6 @@ namespace Dev
 /-- the JavaScript value `Set` stores -/
 def stored (g : GoVal) : Option JS := match toValue g with | .ok j => some j | _ => none
 
-/-- the stored Value carries a Go float32 payload (defined float32 types, pointers to float32) -/
-def storesF32 (g : GoVal) : Bool := match toValue g with | .ok (.f32 _) => true | _ => false
-def storesF32NaN (g : GoVal) : Bool := match toValue g with | .ok (.f32 .nan) => true | _ => false
-
 def isPtr : GoVal → Bool
   | .ptr _ => true
   | .nilptr _ => true
@@ -357,34 +353,13 @@ def isPlainF32 : GoVal → Bool
   | .sc false (.f32 _) => true
   | _ => false
 
-/-- a uint/uint64 below 2^63 that float64 cannot hold exactly -/
-def uintInexact (g : GoVal) : Bool :=
-  match target g with
-  | .sc _ (.int .u64 i) => decide (i < 2^63) && decide (truncInt (ofInt i) ≠ i)
-  | .sc _ (.int .uint i) => decide (i < 2^63) && decide (truncInt (ofInt i) ≠ i)
-  | _ => false
-
-def scOf (g : GoVal) : Option Sc := match target g with | .sc _ s => some s | _ => none
-
-def nonFinite (g : GoVal) : Bool :=
-  match scOf g with
-  | some (.f32 x) => isNaN x || isInf x
-  | some (.f64 x) => isNaN x || isInf x
-  | _ => false
-
-def negZero (g : GoVal) : Bool :=
-  match scOf g with
-  | some (.f32 x) => isZero x && signBit x
-  | some (.f64 x) => isZero x && signBit x
-  | _ => false
-
 /-! #### JavaScript -> Go: the Array typing rule of `export`, on types alone -/
 
 def stepT (st : St) (t : Option GT) : St :=
   let s := sigOf t
-  if st.state = 0 then ⟨1, s, t⟩
-  else if st.state = 1 ∧ st.sig ≠ s then ⟨2, st.sig, t⟩
-  else ⟨st.state, st.sig, t⟩
+  if st.state = 0 then ⟨1, s, t, t⟩
+  else if st.state = 1 ∧ (st.sig ≠ s ∨ t ≠ st.first) then ⟨2, st.sig, t, st.first⟩
+  else ⟨st.state, st.sig, t, st.first⟩
 
 def scanT : St → List (Option GT) → St
   | st, [] => st
@@ -396,13 +371,6 @@ def arrElemType (ts : List (Option GT)) : GT :=
   match st.t with
   | none => .iface
   | some t => if st.state ≠ 1 ∨ st.sig.k = 20 then .iface else t
-
-/-- same Kind signature everywhere, yet not all of the same type: reflect.Set panics -/
-def arrClash (ts : List (Option GT)) : Bool :=
-  let st := scanT St.init ts
-  match st.t with
-  | none => false
-  | some t => !(decide (st.state ≠ 1 ∨ st.sig.k = 20)) && !(ts.all (· == some t))
 
 mutual
 /-- dynamic type of what `export` returns (when it returns) -/
@@ -421,21 +389,6 @@ def expTypes : JSElems → List (Option GT)
   | .nil => []
   | .hole r => expTypes r
   | .cons v r => expType v :: expTypes r
-end
-
-mutual
-/-- some Array inside has elements of one Kind signature but of different types -/
-def clash : JS → Bool
-  | .arr es => clashElems es || arrClash (expTypes es)
-  | .obj ps => clashProps ps
-  | _ => false
-def clashElems : JSElems → Bool
-  | .nil => false
-  | .hole r => clashElems r
-  | .cons v r => clash v || clashElems r
-def clashProps : JSProps → Bool
-  | .nil => false
-  | .cons _ v r => (!isUndef v && clash v) || clashProps r
 end
 
 mutual
